@@ -338,6 +338,16 @@ fn pair_laws(members: &[Member], sh: &util::Shard) -> Report {
                 }
             }
         }
+        // (vi') a removal on an operand that was already used gives what it gives on a fresh one
+        for k in KEYS {
+            let fresh = observe(&mut p, &format!("std.objectRemoveKey({a}, \"{k}\")"), &mut rep);
+            let used = observe(&mut p, &format!("(local a__ = {a}; local w__ = std.length(std.toString(a__)) + std.length(std.objectFieldsAll(a__)); if w__ >= 0 then std.objectRemoveKey(a__, \"{k}\") else null)"), &mut rep);
+            let usable = observe(&mut p, &format!("std.length(std.toString({a})) >= 0"), &mut rep).manifest == "V true";
+            rep.states += 1;
+            if usable && fresh != used {
+                rep.violation("C07/used-operands-combine-differently", format!("std.objectRemoveKey(A, {k:?}) differs when A was manifested before: A={a}: {used:?} vs fresh {fresh:?}"), json!({"type":"remove-forced","a":a,"key":k}));
+            }
+        }
         // (v) objectRemoveKey
         for k in KEYS {
             let rem = format!("std.objectRemoveKey({a}, \"{k}\")");
